@@ -76,6 +76,84 @@ func registerResolver() {
 		Outside:  []string{"as C01", "variadic functions", "non-termination that needs more than 400 nested frames to distinguish from deep recursion"},
 		Assume:   common,
 		Anchored: append(resolverFns, "(*github.com/hashicorp/go-argmapper.Func).Redefine", "(*github.com/hashicorp/go-argmapper.Func).redefineInputs", "github.com/hashicorp/go-argmapper.Convert", "(*github.com/hashicorp/go-argmapper.structValue).CallIn"),
-		CVQuick:  0, CVThor: 0,
+		CVQuick:  2, CVThor: 4,
+	})
+
+	register(&PropSpec{
+		ID: "C03", Pkg: "argmapper", SchedDependent: true,
+		Quick: []Shard{
+			world("HarnessC03", 1, 1, 1, 0, 1, 100), world("HarnessC03", 3, 1, 1, 11, 1, 100), world("HarnessC03", 1, 2, 0, 11, 0, 0),
+			world("HarnessC03", 2, 1, 1, 11, 1, 100), world("HarnessC03", 0, 1, 0, 11, 9, 0),
+		},
+		Thorough: []Shard{
+			world("HarnessC03", 1, 1, 2, 0, 1, 100), world("HarnessC03", 3, 1, 1, 11, 1, 100), world("HarnessC03", 3, 1, 1, 11, 0, 101), world("HarnessC03", 1, 2, 0, 11, 0, 101),
+			world("HarnessC03", 2, 1, 1, 11, 1, 100), world("HarnessC03", 0, 1, 1, 11, 9, 0), world("HarnessC03", 3, 1, 0, 1111, 1, 0), world("HarnessC03", 3, 2, 1, 11, 1, 1),
+		},
+		Covers:   []string{"C03.call-returned", "C03.with-distractor-converter"},
+		Bounds:   []string{"targets of 1-2 parameters, each with an exactly matching supplied value (assumed), plus <=2 distractor values and <=2 distractor converters with symbolic labels", "iteration order: exhaustive product of independent flips at the six order-sensitive range sites of path selection (sv=100), or perm(3)/flip (sv=101)"},
+		Outside:  []string{"more distractors than listed", "iteration orders outside the named per-site policies", "interface-typed parameters (a supplied value always has a concrete type)"},
+		Assume:   common,
+		Anchored: resolverFns,
+		CVQuick:  2, CVThor: 4,
+	})
+	register(&PropSpec{
+		ID: "C04", Pkg: "argmapper",
+		Quick: []Shard{
+			world("HarnessC04", 0, 1, 1, 11, 9, 0), world("HarnessC04", 1, 1, 1, 1111, 1, 0), world("HarnessC04", 0, 1, 1, 1121, 0, 0), world("HarnessC04", 0, 2, 1, 1111, 1, 1),
+		},
+		Thorough: []Shard{
+			world("HarnessC04", 0, 1, 1, 11, 9, 0), world("HarnessC04", 1, 1, 1, 1111, 1, 0), world("HarnessC04", 0, 1, 1, 1121, 0, 0), world("HarnessC04", 0, 2, 1, 1111, 1, 1),
+			world("HarnessC04", 0, 1, 1, 111111, 1, 0), world("HarnessC04", 3, 1, 1, 1111, 0, 0), world("HarnessC04", 0, 1, 2, 2111, 2, 0),
+		},
+		Covers:   []string{"C04.call-returned", "C04.converter-failed", "C04.target-failed", "C04.success"},
+		Bounds:   []string{"chains of up to 2 (quick) / 3 (thorough) converters with symbolic labels, each declaring a final error and failing symbolically; the target fails symbolically too", "error identity is Go pointer identity of distinct error objects"},
+		Outside:  []string{"more than 3 converters", "run-once converters (C11)"},
+		Assume:   common,
+		Anchored: append(resolverFns, "(*github.com/hashicorp/go-argmapper.Result).Err"),
+		CVQuick:  2, CVThor: 4,
+	})
+	register(&PropSpec{
+		ID: "C05", Pkg: "argmapper", SchedDependent: true,
+		Quick: []Shard{
+			world("HarnessC05", 0, 1, 1, 11, 1, 102), world("HarnessC05", 0, 1, 1, 1111, 1, 0), world("HarnessC05", 1, 1, 1, 1111, 1, 1), world("HarnessC05", 0, 1, 1, 1121, 1, 0),
+		},
+		Thorough: []Shard{
+			world("HarnessC05", 0, 1, 1, 11, 1, 102), world("HarnessC05", 0, 1, 1, 1111, 1, 100), world("HarnessC05", 1, 1, 1, 1111, 1, 1), world("HarnessC05", 0, 1, 1, 1121, 1, 0),
+			world("HarnessC05", 0, 1, 1, 111111, 1, 0), world("HarnessC05", 3, 1, 1, 1111, 0, 0), world("HarnessC05", 0, 2, 1, 1111, 1, 2), world("HarnessC05", 4, 1, 1, 1111, 1, 0),
+		},
+		Covers:   []string{"C05.call-returned", "C05.derivable-world", "C05.converter-used", "C05.stability-checked"},
+		Bounds:   []string{"converter sets of up to 2 (quick) / 3 (thorough) converters with symbolic labels, including 2-cycles and bidirectional pairs (single-input) and acyclic 2-input converters", "stability: the same call repeated in one path under two independent iteration-order choices (per-site flips, or seeded vectors)"},
+		Outside:  []string{"more than 3 converters", "iteration orders outside the named policies"},
+		Assume:   common,
+		Anchored: resolverFns,
+		CVQuick:  2, CVThor: 4,
+	})
+	c07 := func(kind, k, form, sv int64) Shard {
+		return sh("HarnessC07", fmt.Sprintf("kind=%d (0: competing same-typed named inputs, 1: named vs type-only converter), %d named inputs, converter form %s, order policy %d", kind, k, formNames[form], sv), 0, kind, k, form, sv)
+	}
+	register(&PropSpec{
+		ID: "C07", Pkg: "argmapper", SchedDependent: true,
+		Quick:    []Shard{c07(0, 2, 9, 100), c07(0, 3, 0, 101), c07(1, 1, 0, 100), c07(1, 2, 1, 101)},
+		Thorough: []Shard{c07(0, 2, 9, 100), c07(0, 3, 9, 101), c07(0, 4, 0, 101), c07(1, 1, 9, 100), c07(1, 2, 9, 101), c07(1, 3, 0, 101), c07(0, 3, 0, 102)},
+		Covers:   []string{"C07.conversion-checked"},
+		Bounds:   []string{"k<=3 (quick) / 4 (thorough) competing named inputs of the converter's input type, the parameter's name symbolic among them, both type assignments, all four converter forms, both registration orders", "iteration order: exhaustive flip product at the six order-sensitive sites / perm(3) at Dijkstra's relaxation range and OutEdges"},
+		Outside:  []string{"more than 4 competing inputs", "iteration orders outside the named policies"},
+		Assume:   common,
+		Anchored: resolverFns,
+	})
+	register(&PropSpec{
+		ID: "C13", Pkg: "argmapper",
+		Quick: []Shard{
+			world("HarnessC13", 1, 1, 2, 0, 0, 0), world("HarnessC13", 3, 2, 1, 0, 1, 0), world("HarnessC13", 0, 1, 1, 11, 9, 0), world("HarnessC13", 2, 1, 1, 11, 0, 1), world("HarnessC13", 1, 2, 1, 11, 1, 0),
+		},
+		Thorough: []Shard{
+			world("HarnessC13", 1, 1, 2, 0, 0, 0), world("HarnessC13", 3, 2, 1, 0, 1, 0), world("HarnessC13", 0, 1, 1, 11, 9, 0), world("HarnessC13", 2, 1, 1, 11, 0, 1), world("HarnessC13", 1, 2, 1, 11, 1, 0),
+			world("HarnessC13", 3, 2, 2, 11, 1, 0), world("HarnessC13", 0, 2, 1, 1111, 1, 0),
+		},
+		Covers:   []string{"C13.hopeless-world", "C13.error-checked"},
+		Bounds:   []string{"template worlds as C01 restricted (by assumption) to worlds with a target parameter that no supplied value and no converter output can match"},
+		Outside:  []string{"as C01"},
+		Assume:   common,
+		Anchored: append(resolverFns, "(*github.com/hashicorp/go-argmapper.ErrArgumentUnsatisfied).Error"),
 	})
 }
